@@ -274,7 +274,7 @@ theorem getTxid_ok (t : Tx) (h : TxRange t) : getTxid t = .ok (Spec.Merkle.txid 
         exact absurd (hnil.1) (witStack_ne_nil s)
     simp only [hnil, ne_eq, not_true_eq_false, if_false]
     rw [serTx_true t h]
-    simp [Spec.Wire.txBytes, Tx.hasWitness, hwit, witIsNull, Spec.Merkle.txid, Except.map]
+    simp [Spec.Wire.txBytes, Tx.hasWitness_eq_not_witIsNull, hwit, witIsNull, Spec.Merkle.txid, Except.map]
   · simp only [ne_eq, hnil, not_false_eq_true, if_true, ctorValid_of_range t h]
     rw [serTx_strip t h]
     simp [Spec.Merkle.txid, Except.map]
